@@ -64,6 +64,18 @@ def snapshot(root):
     def ids(lst):
         return [None if x is None else seen.get(id(x), -1) for x in lst]
     out = []
+    conts = {}
+
+    def share_sig(v, depth=0):
+        """identity pattern of the mutable containers inside an attribute value: which list / dict / set OBJECT sits where, numbered
+        in order of first appearance over the whole graph (sharing between attributes and between vertices must survive)"""
+        sig = []
+        if isinstance(v, (list, dict, set)):
+            sig.append(conts.setdefault(id(v), len(conts)))
+        if depth < 3 and isinstance(v, (list, tuple, dict)):
+            for x in (v.values() if isinstance(v, dict) else v):
+                sig += share_sig(x, depth + 1)
+        return sig
     for o in order:
         d = {"cls": type(o).__module__ + "." + type(o).__qualname__, "uid": o.uid}
         for attr in ("vertices", "links", "universes"):
@@ -88,6 +100,9 @@ def snapshot(root):
                     extra[k] = ["call raises", type(e).__name__]
             else:
                 extra[k] = repr(v) if not isinstance(v, (int, str, float, bool, type(None))) else v
+                sh = share_sig(v)
+                if sh:
+                    extra[k + "#containers"] = sh
         d["attrs"] = extra
         out.append(d)
     return out
